@@ -420,7 +420,7 @@ class Parser:
             # only for programs that are otherwise accepted)
         if isinstance(res, ast.AST) and self._version_errors:
             self._raise_version_error(res)
-        if isinstance(res, ast.AST) and any(not t.line.isascii() for t in self._tokenizer._tokens):
+        if isinstance(res, ast.AST) and any(not (t.line.isascii() and t.string.isascii()) for t in self._tokenizer._tokens):
             self._columns_to_byte_offsets(res)
         return res
 
